@@ -13,7 +13,9 @@ import Tmcg.Model.Rng
          (`<base-62 of '+' ‖ ciphertext>|<base-62 counter>\n`), select class only;
    * the sender of the non-blocking class with the link as a byte queue of bounded capacity:
      `write` takes `min len free` bytes, 0 is `EAGAIN`, followed by `sleep(1)` during which the
-     receiver may take bytes off the queue, and the clock as fuel;
+     receiver may take bytes off the queue, and the clock as fuel; a `Send` that times out with the stream
+     out of step closes the link (`isOpen`, the repair 531e2c0: `fd_out.erase`), every later `Send` on it
+     returns false at once;
    * `n` peers behind one object: per-peer link state, the three schedulers.
 -/
 namespace Tmcg.Aio2
@@ -82,10 +84,14 @@ structure Tx2 where
   /-- bytes fed to the MAC handle since its last reset (matters for the non-blocking class only, which
       resets the handle after reading the tag and not before writing the message) -/
   macAcc : Bytes := []
+  /-- the output descriptor of the link is still registered (`fd_out.count(i)`); a `Send` that times out
+      with the stream out of step erases it, and every later `Send` on the link returns false at once -/
+  isOpen : Bool := true
   deriving Repr, DecidableEq
 
 /-- `aiounicast_select::Send` on a link that takes everything at once: the bytes written -/
 def send2 (md : Mode) (cr : Crypto) (iv : Bytes) (tx : Tx2) (m : Int) (est : Nat) : Option (Tx2 × Bytes) :=
+  if !tx.isOpen then none else
   match encodeLine md cr tx.enc m est with
   | none => none
   | some (e, line) =>
@@ -135,6 +141,7 @@ structure Fuel where
 /-- `aiounicast_nonblock::Send(m, i, timeout)`.  Result: return value, sender state, link, unused drains. -/
 def nbSend (md : Mode) (cr : Crypto) (iv : Bytes) (tx : Tx2) (m : Int) (est : Nat)
     (l : Link) (fu : Fuel) (ds : List Nat) : Bool × Tx2 × Link × List Nat :=
+  if !tx.isOpen then (false, tx, l, ds) else
   match encodeLine { md with cls := .nonblock } cr tx.enc m est with
   | none => (false, tx, l, ds)
   | some (e, line) =>
@@ -143,19 +150,22 @@ def nbSend (md : Mode) (cr : Crypto) (iv : Bytes) (tx : Tx2) (m : Int) (est : Na
     let (ivDone, tx2, l2, ds2) :=
       if md.enc ∧ !tx.ivSent then
         let (l', ds', rem) := writeLoop (max fu.iv 1) l ds iv
-        (rem.isEmpty, { tx1 with ivSent := rem.isEmpty }, l', ds')
+        -- IV time-out: the link is closed
+        (rem.isEmpty, { tx1 with ivSent := rem.isEmpty, isOpen := rem.isEmpty }, l', ds')
       else (true, tx1, l, ds)
     if !ivDone then (false, tx2, l2, ds2)
     else
       let body := line ++ [10]
       let tx3 : Tx2 := if md.auth then { tx2 with macAcc := tx2.macAcc ++ body } else tx2
       let (l3, ds3, rem) := writeLoop (max fu.body 1) l2 ds2 body
-      if !rem.isEmpty then (false, tx3, l3, ds3)
+      -- line time-out: closed if anything of the line is on the wire or cipher / MAC have advanced
+      if !rem.isEmpty then
+        (false, { tx3 with isOpen := !(decide (rem.length < body.length) || md.enc || md.auth) }, l3, ds3)
       else if md.auth then
         let tag := cr.mac (tx3.macAcc ++ strBytes (Codec.str62 (tx3.sqn : Nat)))
         let tx4 : Tx2 := { tx3 with macAcc := [] }
         let (l4, ds4, rem) := writeLoop (max fu.mac 1) l3 ds3 tag
-        if !rem.isEmpty then (false, tx4, l4, ds4)
+        if !rem.isEmpty then (false, { tx4 with isOpen := false }, l4, ds4)
         else (true, { tx4 with sqn := tx4.sqn + 1 }, l4, ds4)
       else (true, tx3, l3, ds3)
 
